@@ -6,3 +6,4 @@ import WowSrp.Model.World
 import WowSrp.Model.Pin
 import WowSrp.Model.Integrity
 import WowSrp.Model.MatrixCard
+import WowSrp.Model.BigIntLib
